@@ -281,6 +281,27 @@ def run(ctx):
                      {"mode": "pyjudge", "judge": "auverif.props.c20:replay_fwd", "src": a_src, "cfg": list(cfg), "params": {"a": a_src, "b": b_src}, "no_build": True})
         else:
             ctx.nontrivial(("fwdlink", core.cfg_name(cfg)))
+    # every public header in two translation units linked together (ODR: no non-inline definition may live in a header); always under
+    # C++14 (where static constexpr data members are not implicitly inline) and one rotating later standard
+    all_inc = "".join('#include "%s"\n' % os.path.relpath(h, core.INC) for h in hdrs if not h.endswith("_fwd.hh"))
+    tu_a = all_inc + "int auv_b();\nint main() { return auv_b() == 57 ? 0 : 1; }\n"
+    tu_b = all_inc + "int auv_b() { return 57; }\n"
+    pa2, pb2 = ctx.write("odr/a.cc", tu_a), ctx.write("odr/b.cc", tu_b)
+    odr_cfgs = [("g++", "c++14"), ("clang++", "c++14"), core.CONFIGS[[1, 2, 4, 5][ctx.seed % 4]]] if quick else core.CONFIGS
+
+    def odr(cfg):
+        exe = ctx.path("odr/t_%s%s.exe" % (cfg[0][0], cfg[1][-2:]))
+        return cfg, core.run_cmd([cfg[0], "-std=" + cfg[1], "-I" + core.INC, pa2, pb2, "-o", exe], timeout=900)
+    for cfg, (rc, o, e, s_, to) in core.pmap(odr, odr_cfgs):
+        ctx.count(len(hdrs))
+        if to or core.RESOURCE_RE.search(e):
+            ctx.inconclusive += 1
+        elif rc != 0:
+            first = [ln for ln in e.splitlines() if "multiple definition" in ln or "error" in ln][:1]
+            ctx.fail("C20: all public headers included by two translation units do not link under %s: %s" % (core.cfg_name(cfg), first[0][:300] if first else e[-300:]),
+                     {"mode": "pyjudge", "judge": "auverif.props.c20:replay_odr", "src": tu_a, "cfg": list(cfg), "params": {"a": tu_a, "b": tu_b, "cfg": list(cfg)}, "no_build": True})
+        else:
+            ctx.nontrivial(("odr", core.cfg_name(cfg)))
     # (a)+(b) subsets
     grid = [{"units": [], "constants": [], "io": True, "reps": ["int32_t", "double", "int8_t"], "vals": [7, 3, 2]},
             {"units": ["Meters", "Seconds", "Feet", "Celsius"], "constants": ["SPEED_OF_LIGHT"], "io": True, "reps": ["int8_t", "uint16_t", "double"], "vals": [17, 5, 3]},
@@ -415,3 +436,13 @@ def replay_fwd(params, rc, out, err):
     if r[0] != 0:
         return True, "link failed: " + r[2][-300:]
     return core.run_cmd([os.path.join(d, "t.exe")])[0] != 0, "fwd link test"
+
+
+def replay_odr(params, rc, out, err):
+    import tempfile
+    d = tempfile.mkdtemp(prefix="c20replay", dir=os.path.join(core.VERIF, "build"))
+    pa, pb = os.path.join(d, "a.cc"), os.path.join(d, "b.cc")
+    open(pa, "w").write(params["a"]); open(pb, "w").write(params["b"])
+    cfg = params["cfg"]
+    r = core.run_cmd([cfg[0], "-std=" + cfg[1], "-I" + core.INC, pa, pb, "-o", os.path.join(d, "t.exe")], timeout=900)
+    return r[0] != 0, "two-TU link of all headers: rc=%d %s" % (r[0], r[2][-200:])
